@@ -131,7 +131,7 @@ def parse_terse(out):
 
 def kani_cmd(harness_names, jobs, extra=()):
     cmd = ["cargo", "kani", "-Z", "function-contracts", "-Z", "stubbing", "-Z", "unstable-options",
-           "--harness-timeout", os.environ.get("VERIF_KANI_HARNESS_TIMEOUT", "900s"),
+           "--harness-timeout", os.environ.get("VERIF_KANI_HARNESS_TIMEOUT", "2400s"),
            "--output-format=terse", "-j", str(jobs)]
     for h in harness_names:
         cmd += ["--harness", h]
@@ -197,7 +197,7 @@ def run_for_property(prop, tier, scratch, seed=0, only=None):
                     if "out of memory" in txt.lower():
                         why = "ran out of memory"
                     rec["inconclusive"] = "harness %s %s (per-harness limit %s)" % (
-                        h["name"], why, os.environ.get("VERIF_KANI_HARNESS_TIMEOUT", "900s"))
+                        h["name"], why, os.environ.get("VERIF_KANI_HARNESS_TIMEOUT", "2400s"))
                     out.append(rec)
                     continue
                 r = hit[0]
@@ -209,7 +209,7 @@ def run_for_property(prop, tier, scratch, seed=0, only=None):
                     continue
                 if not r["ok"] and ("CBMC timed out" in r["text"] or "out of memory" in r["text"].lower()):
                     rec["inconclusive"] = "harness %s: CBMC timed out / out of memory (limit %s)" % (
-                        h["name"], os.environ.get("VERIF_KANI_HARNESS_TIMEOUT", "900s"))
+                        h["name"], os.environ.get("VERIF_KANI_HARNESS_TIMEOUT", "2400s"))
                     out.append(rec)
                     continue
                 rec["ok"] = r["ok"]
